@@ -2120,6 +2120,10 @@ func (a *Authenticator) handleClientAuthentication(ctx context.Context, negotiat
 
 	if !authRequired {
 		slog.Debug("🔐 CLIENT: No authentication required", "destination", "cedar")
+		// The server's answer is the decision; our own negotiateSecurity ran on
+		// that YES/NO answer as if it were a level, so take the flag from what
+		// actually happens on this connection: nothing.
+		negotiation.Authentication = false
 		return nil
 	}
 
@@ -2235,6 +2239,7 @@ func (a *Authenticator) handleClientAuthentication(ctx context.Context, negotiat
 
 		slog.Debug(fmt.Sprintf("✅ CLIENT: Authentication successful with method: %s", selectedMethod), "destination", "cedar")
 		negotiation.NegotiatedAuth = selectedMethod
+		negotiation.Authentication = true
 
 		// After successful authentication, perform key exchange as in HTCondor's Authentication::exchangeKey
 		// For modern HTCondor with AESGCM crypto, the server always sends an empty key
